@@ -25,7 +25,7 @@ def gen_consts(v):
         'DISCOVER_COMMAND DISCOVER_COMMAND_RESPONSE GET_COMMAND GET_COMMAND_RESPONSE '
         'SET_COMMAND SET_COMMAND_RESPONSE').split()]
     ents += [('ALL_DEVICES', R + 'UID::ALL_DEVICES'), ('ALL_MANUFACTURERS', R + 'UID::ALL_MANUFACTURERS'),
-             ('DMX_UNIVERSE_SIZE', 'ola::DMX_UNIVERSE_SIZE'),
+             ('DMX_UNIVERSE_SIZE', 'ola::DMX_UNIVERSE_SIZE'), ('DMX_MAX_SLOT_VALUE', 'ola::DMX_MAX_SLOT_VALUE'),
              ('MAX_PDL', R + 'RDMCommandSerializer::MAX_PARAM_DATA_LENGTH')]
     return v.gen_consts_cpp(ID, ['ola/Constants.h', 'ola/rdm/RDMCommand.h', 'ola/rdm/RDMCommandSerializer.h',
                                  'ola/rdm/RDMEnums.h', 'ola/rdm/OpenLightingEnums.h', 'ola/rdm/RDMResponseCodes.h', 'ola/rdm/UID.h'],
